@@ -187,7 +187,9 @@ CHECKS["C14"] = dict(
          "all weights vanish, re-evaluation gives the same value, the "
          "order1 moment matrix and right-hand side equal their documented "
          "sums, a linear field gives b = M.[p, grad p], and post_loop solves "
-         "M x = b (dims 1, 2). Equation level only.",
+         "M x = b (dims 1, 2). Equation level, plus one concrete unit for "
+         "SPHEvaluator.update_particle_arrays (the neighbour search is "
+         "rebuilt on the new arrays).",
     note="kernel abstracted (W(r,h) >= 0, gradient = G(r,h) xij); hooks "
          "driven in the documented order by the harness (C03's subject); "
          "Interpolator's glue code, grids and periodic domains are outside; "
@@ -211,8 +213,9 @@ CHECKS["C16"] = dict(
          "copied exactly when it left the zone, its original is recycled one "
          "length upstream, fluid particles past the outlet plane move "
          "exactly once, outlet particles past the far end are deleted, and "
-         "nothing else is created, duplicated or lost. The five shipped "
-         "families share these two update methods.",
+         "nothing else is created, duplicated or lost. The two overriding "
+         "copies of update (hybrid Inlet, mirror Outlet without ghost "
+         "array) get the same units.",
     note="ParticleArray is a record-list model (C06's subject), SPHEvaluator "
          "a stub applying the real IOEvaluate hooks; floats as reals; "
          "knife-edge disp-length == 1e-6 excluded; replay uses the real "
@@ -232,8 +235,11 @@ CHECKS["C18"] = dict(
          "thread (2 control points) and one or two interface threads with "
          "programs over {queued command, get_result, pause_on_next, wait, "
          "cont} z3 decides within K=48 (36 for three threads) transitions "
-         "that no global deadlock, KeyError state, double execution / "
-         "undelivered result or early return of wait() is reachable. "
+         "that no global deadlock, error state (KeyError, release of an "
+         "unlocked lock), double execution / undelivered result, early "
+         "return of wait(), solver progress past a pending pause request or "
+         "a waiter left un-notified by the solver's announcement of a "
+         "control point is reachable. "
          "Counter-example schedules are replayed on the real module with "
          "cooperative threading primitives.",
     note="the AST translator (vf/bmc.py) is trusted and refuses unknown "
